@@ -258,18 +258,26 @@ class RetryExecutor(CanCustomizeBind, Executor):
         Parameters:
             retry_policy (RetryPolicy): a policy which is used for this call only
         """
-        with self._shutdown.ensure_alive():
-            future = RetryFuture(self)
-            track_future(future, type="retry", executor=self._name)
+        # Lock order: our own lock first, then the shutdown lock.
+        # The submit thread holds our lock while it hands a job to the
+        # delegate; if the delegate runs the callable synchronously and the
+        # callable submits to us again, that nested submit takes the shutdown
+        # lock while our lock is held.
+        with self._lock:
+            with self._shutdown.ensure_alive():
+                future = RetryFuture(self)
+                track_future(future, type="retry", executor=self._name)
 
-            job = RetryJob(retry_policy, None, future, 0, monotonic(), fn, args, kwargs)
-            self._append_job(job)
+                job = RetryJob(
+                    retry_policy, None, future, 0, monotonic(), fn, args, kwargs
+                )
+                self._append_job(job)
 
-            # Let the submit thread know it should wake up to check for new jobs
-            self._wake_thread()
+                # Let the submit thread know it should wake up to check for new jobs
+                self._wake_thread()
 
-            self._log.debug("Returning future %s", future)
-            return future
+                self._log.debug("Returning future %s", future)
+                return future
 
     def _wake_thread(self):
         self._submit_event.set()
